@@ -359,6 +359,14 @@ class MoleculeResolver:
             # add the fragment id of the sequashed node
             self.molecule.nodes[node_to_keep]['fragid'] += self.molecule.nodes[node_to_keep]['contraction'][node_to_remove]['fragid']
             self.molecule.nodes[node_to_keep]['mapping'] += self.molecule.nodes[node_to_keep]['contraction'][node_to_remove]['mapping']
+            # annotations written on the removed copy of the shared atom belong
+            # to the merged atom as well; a written weight replaces the default
+            removed_attrs = self.molecule.nodes[node_to_keep]['contraction'][node_to_remove]
+            for key, value in removed_attrs.items():
+                if key not in self.molecule.nodes[node_to_keep]:
+                    self.molecule.nodes[node_to_keep][key] = value
+            if self.molecule.nodes[node_to_keep].get('weight', 1) == 1 and removed_attrs.get('weight', 1) != 1:
+                self.molecule.nodes[node_to_keep]['weight'] = removed_attrs['weight']
             # the hydrogen count of the kept atom was derived for its own
             # fragment only; the merged atom also has the bonds of the removed
             # one, so it is recomputed from the merged connectivity. Otherwise
